@@ -50,9 +50,11 @@ func (t *Dense) T(axes ...int) (err error) {
 		}
 	}
 
-	// swap out the old and the new
+	// swap out the old and the new. The axes are kept in a slice of the tensor's own:
+	// the one passed in belongs to the caller (RollAxis hands its back to the pool,
+	// a user may reuse theirs) and UT()/Transpose() recycle what is stored here.
 	t.old = t.AP
-	t.transposeWith = axes
+	t.transposeWith = append(BorrowInts(len(axes))[:0], axes...)
 	t.AP = transform
 	return nil
 }
@@ -97,7 +99,7 @@ func (t *Dense) SafeT(axes ...int) (retVal *Dense, err error) {
 		// only a real transposition is pending on the copy: recording one for a no-op
 		// makes the next T() on the copy look like its reversal
 		t.AP.CloneTo(&retVal.old)
-		retVal.transposeWith = axes
+		retVal.transposeWith = append(BorrowInts(len(axes))[:0], axes...)
 	}
 
 	return
